@@ -63,6 +63,8 @@ def fee_fn(name):
         return lambda q, p: max(1.0, abs(q) * 0.125)
     if name == "selllevy":  # direction-dependent: a levy on sales only (+ a small symmetric part)
         return lambda q, p: (0.0625 * abs(q) * p if q < 0 else 0.0) + 0.03125 * abs(q)
+    if name == "rebate":  # a maker rebate on sales: the commission of a sale is negative
+        return lambda q, p: (-0.03125 * abs(q)) if q < 0 else 0.0625 * abs(q)
     if name == "propdec":
         return lambda q, p: abs(q) * p * 0.001
     if name == "mixdec":
@@ -183,6 +185,10 @@ class Tree(object):
         self.i = 0
         # the driver's own ledger: (date index, path, amount, is_flow)
         self.adjust_log = []
+        if spec.get("seed_before_setup"):
+            # money paid into the strategy before it is given its data: a flow of the first date
+            root.adjust(float(spec["seed_before_setup"]))
+            self.adjust_log.append((0, (), float(spec["seed_before_setup"]), True))
         root.setup(self.data, **kw)
         cap = float(spec.get("capital", 64.0))
         if cap:
